@@ -15,7 +15,7 @@ func init() {
 		ID: "C14", Engine: "lib", Level: "fault_enumeration",
 		Rule: "case = (document from /repo's test tables, fuzz corpora and benchmarks; optionally embedded in an HTML host; entry point; fault kind; writer-call index k_w; reader byte offset k_r; chunking; schedule). " +
 			"For each document a fault-free run measures W (Write calls incl. the final zero-length probe) and R (input bytes); then every k_w in [0,W) x {(0,err),(short,err)} and every k_r in [0,R] x {(0,err),(n>0,err)} is run through the plain call (strided for long documents: counters inputs_positions_sampled vs inputs_all_positions_enumerated), a spread through Writer/ResponseWriter/MiddlewareWithError/Match/Reader and through one level of embedding, then random cases. " +
-			"The failing writer returns an opaque error or, in a third of the cases, a value a real sink hands out (io.EOF, io.ErrUnexpectedEOF, io.ErrShortWrite, io.ErrClosedPipe, a wrapped EOF, *net.OpError with EPIPE / ECONNRESET, context.Canceled, os.ErrDeadlineExceeded, syscall.EPIPE). One random case in 1024 goes through an external-command minifier (stdin or $in, stdout or $out; 1-64 byte or 100-300 KiB documents; real process; a third of the stdin/stdout ones through a filter that ignores SIGPIPE and reports a failed write or a short input by its exit status). One case in 64 names a media type nobody registered in front of the failing destination (plain call, Reader, Writer). " +
+			"The failing writer returns an opaque error or, in a third of the cases, a value a real sink hands out (io.EOF, io.ErrUnexpectedEOF, io.ErrShortWrite, io.ErrClosedPipe, a wrapped EOF, *net.OpError with EPIPE / ECONNRESET, context.Canceled, os.ErrDeadlineExceeded, syscall.EPIPE). One random case in 1024 goes through an external-command minifier (stdin or $in, stdout or $out; 1-64 byte or 100-300 KiB documents; real process; a third of the stdin/stdout ones through a filter that ignores SIGPIPE and reports a failed write or a short input by its exit status). One case in 64 names a media type nobody registered in front of the failing destination (plain call, Reader, Writer). One case in 64 (half of the file-spooling command cases) is preceded by 140 failed calls on the same registry. " +
 			"distinct = distinct (document, embedding, entry, fault kind, k_w, k_r, reader kind, schedule hash); non-trivial = the injected fault actually fired.",
 		Assumptions: []string{
 			"fault model is fail-stop as the property states: once a reader or writer has failed it keeps failing",
@@ -73,7 +73,7 @@ func init() {
 	}
 	cfgs["C19"] = &propCfg{
 		ID: "C19", Engine: "cli", Level: "exploration",
-		Rule: "scenario = (directory tree: nesting, hidden files/dirs, unknown extensions, empty / library-rejected / >32KiB files, symlinks to files and directories, hard links, modes, now and then a chain of 34-45 nested directories, destinations that exist before the run, a regular file where the run needs a directory; invocation shape from the README's grammar: file->stdout/file/dir, many files->dir, directory with/without trailing slash, -r, in place, stdin, --bundle to file/stdout (JS and non-JS, mixed types), --sync, --match/--include/--exclude (glob and ~regexp), --type, --ext, -a, -q/-v (sequential path), minifier option flags, refused invocations; two worker schedule tapes; optionally one injected errno). The real cmd/minify runs under the os facade; afterwards the file system, stdout and exit status are compared with a model whose contents come from library calls of the same tree. Under an injected errno only 'no other file modified' and 'inputs not harmed' are judged. evaluations = child runs; distinct_nontrivial = distinct worker schedules of judged runs plus runs in which the injected error actually fired.",
+		Rule: "scenario = (directory tree: nesting, hidden files/dirs, unknown extensions, empty / library-rejected / >32KiB files, symlinks to files and directories, hard links, modes, now and then a chain of 34-45 nested directories, destinations that exist before the run, a regular file where the run needs a directory, inputs named by absolute paths (half of those with the tree as the file-system root of the child, chroot), two links to one directory; invocation shape from the README's grammar: file->stdout/file/dir, many files->dir, directory with/without trailing slash, -r, in place, stdin, --bundle to file/stdout (JS and non-JS, mixed types), --sync, --match/--include/--exclude (glob and ~regexp), --type, --ext, -a, -q/-v (sequential path), minifier option flags, refused invocations; two worker schedule tapes; optionally one injected errno into open, write, read, close, rename, remove, mkdirall, chmod, chown or chtimes). The real cmd/minify runs under the os facade; afterwards the file system, stdout and exit status are compared with a model whose contents come from library calls of the same tree. Under an injected errno only 'no other file modified' and 'inputs not harmed' are judged. evaluations = child runs; distinct_nontrivial = distinct worker schedules of judged runs plus runs in which the injected error actually fired.",
 		Assumptions: []string{
 			"the model covers only invocation shapes whose semantics cmd/minify/README.md states; shapes it does not pin (two files mapping to one destination, several files to stdout, symlinked directory as single input) are generated but not judged (counter scenarios_not_judged_undocumented_shape)",
 			"expected bytes = library call of the same tree with the options the flags stand for; a legitimate change of minifier output cannot raise an alarm",
@@ -94,7 +94,7 @@ func init() {
 	}
 	cfgs["C10"] = &propCfg{
 		ID: "C10", Engine: "lib", Level: "exploration",
-		Rule: "case = (document of /repo's tests/corpora/benchmarks, optionally embedded in an HTML host; 1-3 stream faults from {truncate at k, drop / duplicate (up to 64x) / swap a chunk, flip or zero a byte, reader error after k bytes, writer failing from call k}, positions biased to markup characters, token interiors and the last bytes; entry point in {Minify, Bytes, String, Reader, Writer, direct package Minify}; default or extreme options: every Keep* flag, precisions -1, 0, 1, 20, +-2^30, MaxInt, MinInt). Oracles: no panic (recover in the task; a panic in a library goroutine kills the shard and is attributed), the call returns (scheduler deadlock/step budget; wall-clock watchdog confirmed by a solitary replay), Write calls and bytes <= 64*len+8192, Bytes/String return the caller's data unchanged when they report an error. distinct = distinct (document, delivered bytes, entry, options); every case is non-trivial (at least one fault). One case in 16: a seeded Peek(k)/Shift history on the exported html/svg/xml TokenBuffer, every returned token compared with the token list of a second lexer. One case in 48: the string helpers of package minify/v2/minify (minify.CSS/HTML/SVG/JS/JSON/XML) on a damaged or rejected document behind a byte order mark, blanks or a NUL - on error the very same string must come back. One case in 32 (thorough: plus an enumeration of every unit of <= 4 bytes of every document of <= 64 bytes): a scaling probe on simulated time - a unit repeated r, 4r, 16r times, plain or with numbered identifiers; violation when the ticks grow by more than 10 for both x4 steps and the largest run exceeds 3e6 ticks.",
+		Rule: "case = (document of /repo's tests/corpora/benchmarks, optionally embedded in an HTML host; 1-3 stream faults from {truncate at k, drop / duplicate (up to 64x) / swap a chunk, flip or zero a byte, reader error after k bytes, writer failing from call k}, positions biased to markup characters, token interiors and the last bytes; entry point in {Minify, Bytes, String, Reader, Writer, direct package Minify}; default or extreme options: every Keep* flag, precisions -1, 0, 1, 20, +-2^30, MaxInt, MinInt). Oracles: no panic (recover in the task; a panic in a library goroutine kills the shard and is attributed), the call returns (scheduler deadlock/step budget; wall-clock watchdog confirmed by a solitary replay), Write calls and bytes <= 64*len+8192, Bytes/String return the caller's data unchanged when they report an error. distinct = distinct (document, delivered bytes, entry, options); every case is non-trivial (at least one fault). One case in 16: a seeded Peek(k)/Shift history on the exported html/svg/xml TokenBuffer, every returned token compared with the token list of a second lexer. One case in 16: a seeded JavaScript program from a small grammar (expressions, conditions dense in !, groups, && / || and comparisons, statements, declarations over few names, edge-case numeric literals, spreads of literals), alone, in <script> or in on*=, through Minify / Bytes / String. One case in 48: the string helpers of package minify/v2/minify (minify.CSS/HTML/SVG/JS/JSON/XML) on a damaged or rejected document behind a byte order mark, blanks or a NUL - on error the very same string must come back. One case in 32 (thorough: plus an enumeration of every unit of <= 4 bytes of every document of <= 64 bytes): a scaling probe on simulated time - a unit repeated r, 4r, 16r times, plain or with numbered identifiers; violation when the ticks grow by more than 10 for both x4 steps and the largest run exceeds 3e6 ticks.",
 		Assumptions: []string{
 			"only the hostile inputs and error paths that a misbehaving transport or collaborator produces from a corpus document are claimed, not 'all byte strings' (that is fuzzing, another family): deep-nesting bombs, adversarial numbers and arbitrary non-UTF-8 are reached only as far as chunk duplication and byte flips produce them",
 			"memory growth is not observable (Go has no allocator seam); time is simulated: a work counter compiled (by the build overlay) into every function entry and loop body of the seven packages of /repo and of a private copy of the parse module, copy/append charged per 8 elements; work hidden in other library calls is not counted; endless loops without a yield point are caught by a generous wall-clock watchdog that must reproduce in a solitary replay before it is reported",
